@@ -78,6 +78,18 @@ def enc_simple(v):
     return wire.enc(v)
 
 
+def _arg(rng, prof):
+    if rng.random() < prof.get('p_pool', 0.0):
+        return pool_value(rng)
+    return rng.choice(prof['args'])
+
+
+def _kw(rng, prof):
+    if rng.random() < prof.get('p_pool', 0.0):
+        return {k: pool_value(rng, 1) for k in rng.sample(['k', 'opt', 'n'], rng.randint(1, 2))}
+    return rng.choice(prof.get('kws', [{}]))
+
+
 def gen_query(rng, prof):
     kind = rng.choice(QUERY_KINDS)
     path = rng.choice(prof['qpaths'])
@@ -112,14 +124,14 @@ def gen_stmts(rng, prof, idx, nfuncs, n, depth=0):
         if c < t:
             if idx + 1 < nfuncs:
                 stmts.append(['bf', rng.choice(prof['paths']), 'H' if rng.random() < prof['p_hash'] else 'M',
-                              rng.randrange(idx + 1, nfuncs), enc_simple(rng.choice(prof['args'])),
-                              enc_simple(rng.choice(prof.get('kws', [{}]))), rng.random() < prof['p_catch']])
+                              rng.randrange(idx + 1, nfuncs), enc_simple(_arg(rng, prof)),
+                              enc_simple(_kw(rng, prof)), rng.random() < prof['p_catch']])
             continue
         t += prof['p_sb']
         if c < t:
             if idx + 1 < nfuncs:
-                stmts.append(['sb', rng.randrange(idx + 1, nfuncs), enc_simple(rng.choice(prof['args'])),
-                              enc_simple(rng.choice(prof.get('kws', [{}]))), rng.random() < prof['p_catch']])
+                stmts.append(['sb', rng.randrange(idx + 1, nfuncs), enc_simple(_arg(rng, prof)),
+                              enc_simple(_kw(rng, prof)), rng.random() < prof['p_catch']])
             continue
         t += prof['p_raise']
         if c < t:
